@@ -18,7 +18,7 @@ ASSUMPTIONS = [
     'derivative consistency: deriv/deriv2 compared with Richardson-extrapolated central differences of the callable itself (tolerance 1e-6 x scale), away from knots',
     'TableReader: rows are sorted by x before use; duplicate x values are outside the alphabet',
 ]
-RULE += '; plotToFile / plotPotentialObjectToFile called twice on one open file leave the rows of both calls; copy.copy / copy.deepcopy / pickle round trips of a table form are the same function inside and outside the data range'
+RULE += '; plotToFile / plotPotentialObjectToFile called twice on one open file leave the rows of both calls; copy.copy / copy.deepcopy / pickle round trips of a table form are the same function inside and outside the data range; reader files of 700..60000 rows on regular grids printed with 3..6 decimals (step not a multiple of the resolution), with 1 % jitter and one wide gap: every row and every third interval'
 BOUNDS = {'quick': '466 x-subsets x 4 shapes (rotating representations); TableReader 64 row lists x 8 variants', 'thorough': 'all representations for every data set'}
 
 XL = [0.0, 0.3, 0.7, 1.0, 1.6, 2.1, 3.0, 4.2, 5.0]
@@ -65,6 +65,12 @@ def cases(tier):
     # files larger than any read-ahead buffer: 60 000 and 200 000 rows (1.7 MB, 5.9 MB)
     for nrows in (60000, 200000):
         out.append(dict(kind='reader-big', nrows=nrows))
+    # regular grids whose step is NOT a multiple of the printed resolution (0..10 in n rows, x printed with few decimals): the printed
+    # spacings differ from one another in the last digit; also a grid that is almost regular (1 % jitter) and one with a single wide gap
+    for nrows, fmt in ((12000, '%.6f'), (3000, '%.5f'), (60000, '%f'), (700, '%.4f'), (12000, '%.3f')):
+        out.append(dict(kind='reader-big', nrows=nrows, fmt=fmt, span=10.0))
+    for nrows in (500, 4000):
+        out.append(dict(kind='reader-big', nrows=nrows, fmt='%.6f', span=10.0, jitter=True))
     lows = [-2.0, 0.0, 0.1, 1.0, 7.3]
     spans = [0.5, 1.0, 2.5, 9.9, 30.0]
     for lo in lows:
@@ -245,6 +251,17 @@ def run_reader(case):
             if abs(got - want) > 1e-12 * (abs(want) + 1.0) or not (min(y0, y1) <= got <= max(y0, y1)):
                 V(viol, 'reader-interpolation', 'file %r: f(%r) = %r, linear interpolant %r' % (text, q, got, want))
                 return viol, n
+    # a reader that offers derivatives offers those of its own interpolant (none is offered today; unevenly spaced rows)
+    for name in ('deriv', 'deriv2'):
+        if hasattr(t, name):
+            for (x0, y0), (x1, y1) in zip(data[:-1], data[1:]):
+                q = x0 + 0.4 * (x1 - x0)
+                want = (y1 - y0) / (x1 - x0) if name == 'deriv' else 0.0
+                got = getattr(t, name)(q)
+                n += 1
+                if abs(got - want) > 1e-9 * (abs(want) + 1.0):
+                    V(viol, 'reader-' + name, 'file %r: %s(%r) = %r, the interpolant between (%r, %r) and (%r, %r) has %r' % (text, name, q, got, x0, y0, x1, y1, want))
+                    return viol, n
     for q in (data[0][0] - 0.5, data[0][0] - 1e-9, data[-1][0] + 1e-9, data[-1][0] + 10.0, -3.0):
         n += 1
         if t(q) != 0.0:
@@ -266,18 +283,42 @@ def run_reader_big(case):
     from atsim.potentials import TableReader
     n = case['nrows']
     f = lambda x: math.sin(0.37 * x) + 0.01 * x     # noqa
-    xs = [0.001 * i for i in range(n)]
-    text = ''.join('%.6f %.12f\n' % (x, f(x)) for x in xs)
+    fmt = case.get('fmt', '%.6f')
+    if 'span' in case:
+        xs = [case['span'] * i / (n - 1) for i in range(n)]
+        if case.get('jitter'):
+            xs = [x + (0.009 * case['span'] / (n - 1)) * ((i * 7) % 3 - 1) for i, x in enumerate(xs)]
+            xs[n // 2:] = [x + 0.05 for x in xs[n // 2:]]
+        seen = set()
+        xs = [x for x in xs if not (fmt % x in seen or seen.add(fmt % x))]
+        n = len(xs)
+    else:
+        xs = [0.001 * i for i in range(n)]
+    text = ''.join((fmt + ' %.12f\n') % (x, f(x)) for x in xs)
     t = TableReader(io.StringIO(text))
     viol = []
     k = 0
-    for i in list(range(0, n, 997)) + [n - 1, n - 2, n // 2]:
+    probe = list(range(0, n, 997)) + [n - 1, n - 2, n // 2]
+    if 'span' in case:
+        probe = list(range(n))
+    for i in probe:
         k += 1
         want = float('%.12f' % f(xs[i]))
-        got = t(float('%.6f' % xs[i]))
+        got = t(float(fmt % xs[i]))
         if abs(got - want) > 1e-9:
             V(viol, 'reader-data-point', '%d-row file (%d bytes): f(%r) = %r, tabulated %r' % (n, len(text), xs[i], got, want))
             break
+    if 'span' in case and not viol:
+        px = [float(fmt % x) for x in xs]
+        py = [float('%.12f' % f(x)) for x in xs]
+        for i in range(0, n - 1, 3):
+            k += 1
+            q = px[i] + 0.37 * (px[i + 1] - px[i])
+            want = py[i] + (py[i + 1] - py[i]) * (q - px[i]) / (px[i + 1] - px[i])
+            got = t(q)
+            if abs(got - want) > 1e-9 * (abs(want) + 1.0):
+                V(viol, 'reader-interpolation', '%d-row file, x printed with %s: f(%r) = %r, the linear interpolant between rows %d and %d gives %r' % (n, fmt, q, got, i, i + 1, want))
+                break
     return viol, k
 
 
